@@ -108,6 +108,50 @@ def _small_inlinable_initializers(proto):
     return out
 
 
+def _graphs(proto):
+    def rec(g):
+        yield g
+        for n in g.node:
+            for at in n.attribute:
+                if at.type == onnx.AttributeProto.GRAPH:
+                    yield from rec(at.g)
+
+    if isinstance(proto, onnx.ModelProto):
+        yield from rec(proto.graph)
+        for f in proto.functions:
+            for n in f.node:
+                for at in n.attribute:
+                    if at.type == onnx.AttributeProto.GRAPH:
+                        yield from rec(at.g)
+    else:
+        class _G:  # function body viewed as a graph
+            node = proto.node
+            initializer = ()
+        yield _G
+        for n in proto.node:
+            for at in n.attribute:
+                if at.type == onnx.AttributeProto.GRAPH:
+                    yield from rec(at.g)
+
+
+def _any_initializer(proto):
+    return any(len(g.initializer) for g in _graphs(proto))
+
+
+def _is_inlined_constant(proto, pyname, opts):
+    """pyname is the Python name of a Constant node output (or small initializer) the exporter inlines"""
+    from onnxscript.backend import onnx_export as ox
+
+    if opts["rename"]:
+        return bool(re.fullmatch(r"v\d+", pyname))  # names are opaque under rename; the caller checked it is never assigned
+    for g in _graphs(proto):
+        for n in g.node:
+            if n.op_type == "Constant" and n.output and ox._cleanup_variable_name(n.output[0]) == pyname and \
+                    ox._get_const_repr(n) is not None:
+                return True
+    return False
+
+
 def mechanism(label, proto, opts, res):
     """-> (cond, canonical option predicate | None) for a triaged mechanism, else None.
     Every predicate looks at the model, the options and the generated text, not only at the message."""
@@ -137,10 +181,12 @@ def mechanism(label, proto, opts, res):
             if opts["rename"] and is_model and facts["params"] and name not in facts["assigned"] and \
                     not (set(facts["params"]) & facts["loaded"]) and re.fullmatch(r"v\d+", name):
                 return "graph_inputs_not_renamed_in_signature", "rename"
-            if opts["inline_const"] and re.search(rf"range\({re.escape(name)}\)", text) and name not in facts["assigned"]:
-                return "inlined_constant_used_as_loop_bound", "inline_const"
-            if opts["rename"] and is_model and len(proto.graph.initializer) and re.fullmatch(r"v\d+", name) and \
-                    name not in facts["assigned"] and (not facts["params"] or (set(facts["params"]) & facts["loaded"])):
+            if opts["inline_const"] and name not in facts["assigned"] and _is_inlined_constant(proto, name, opts):
+                # loop bound `range(c)`, loop-carried initial value `state = c`, branch result `out = c`, `return c`:
+                # places where the exporter writes the variable name instead of substituting the constant
+                return "inlined_constant_still_referenced_by_name", "inline_const"
+            if opts["rename"] and _any_initializer(proto) and re.fullmatch(r"v\d+", name) and \
+                    name not in facts["assigned"] and (not is_model or not facts["params"] or (set(facts["params"]) & facts["loaded"])):
                 return "initializer_renamed_twice", "rename"
             if opts["inline_const"] and not opts["rename"] and name not in facts["assigned"] and any(
                     ox._cleanup_variable_name(n) == name and n != name for n in _small_inlinable_initializers(proto)):
